@@ -66,3 +66,37 @@ Example c09_example :
   /\ cid_read env0 (cid0 ++ [[txt "C"; txt "unique id"; txt "IsUnique"; txt "name"]]) = CidInterface (Some 7%nat)
   /\ cid_read env0 (tl cid0) = CidInterface (Some 2%nat).
 Proof. repeat split; vm_compute; reflexivity. Qed.
+
+(* the same rows handed over call by call (add_data_format_row / add_field_format_row / add_check_row) by a caller that
+   reports a refused call and goes on: the outcome is the outcome of reading just the calls that were accepted, every
+   refused call is counted and leaves no trace, and the invariants of the interface hold whatever was refused *)
+Theorem refused_calls_leave_no_trace : forall e rows s n s' m, api_steps e rows s n = Some (s', m) ->
+  steps e s (kept e rows s) = ROk s' /\ (m + length (kept e rows s) = n + length rows)%nat.
+Proof. exact api_steps_as_reading. Qed.
+Theorem call_by_call_cid_keeps_invariants : forall e rows s n s' m, api_steps e rows s n = Some (s', m) -> Inv s -> Inv s'.
+Proof. exact api_steps_preserve_inv. Qed.
+Theorem call_by_call_without_refusal_is_reading : forall e rows s n s', api_steps e rows s n = Some (s', n) -> steps e s rows = ROk s'.
+Proof. exact api_steps_none_refused. Qed.
+Example c09_call_by_call :
+  match api_steps env0 (firstn 5 cid0 ++ [[txt "F"; txt "customer_id"]; [txt "F"; txt "class"]] ++ skipn 5 cid0) cstate0 0 with
+  | Some (s, refused) => refused = 2%nat /\ cid_read env0 cid0 = CidOk s
+  | None => False end.
+Proof. vm_compute. split; reflexivity. Qed.
+
+(* lookups by name on an accepted CID (Cid.field_index, field_value_for): the index of a field is its position in the
+   declaration order, the value looked up for it in a row is the cell at that position, a name that was not declared has
+   no index *)
+Theorem field_lookup_follows_declaration_order : forall e rows s, cid_read e rows = CidOk s ->
+  forall i f, nth_error (st_fields s) i = Some f -> field_index s (fs_name f) = Some i.
+Proof. exact lookup_follows_declaration_order. Qed.
+Theorem field_value_lookup_is_positional : forall e rows s row i f, cid_read e rows = CidOk s -> length row = length (st_fields s) ->
+  nth_error (st_fields s) i = Some f -> field_value_for s (fs_name f) row = nth_error row i.
+Proof. exact value_lookup_is_positional. Qed.
+Theorem undeclared_name_has_no_index : forall s n, field_index s n = None <-> ~ In n (map fs_name (st_fields s)).
+Proof. exact unknown_name_has_no_index. Qed.
+Example c09_lookup :
+  match cid_read env0 cid0 with
+  | CidOk s => field_index s (txt "name") = Some 1%nat /\ field_value_for s (txt "name") [txt "7"; txt "Ann"] = Some (txt "Ann")
+               /\ field_index s (txt "Name") = None
+  | _ => False end.
+Proof. vm_compute. repeat split; reflexivity. Qed.
